@@ -274,10 +274,11 @@ def agree(impl, model, req=None):
     if req and req.split()[1] == "cp":
         return h[:3] == model.split()
     if req and req.split()[1] == "buf":
-        # compared: result code, result length, result units, terminator.  The capacity of the result block and the trace of
+        # compared: result code, result length, result units, terminator (where promised).  The capacity of the result block and the trace of
         # allocator / ICU calls are NOT compared (no property fixes them: a different first-buffer guess is a harmless rewrite);
         # the oracle checks the safety conditions on the implementation's own trace.
-        keep = lambda toks: [x for x in toks if not (x.startswith("tr=") or x.startswith("cap="))]
+        promised = req.split()[2] in ("nfd1", "nfc1")           # a terminator is an observable only where one is promised
+        keep = lambda toks: [x for x in toks if not (x.startswith("tr=") or x.startswith("cap=") or (x.startswith("term=") and not promised))]
         return keep(h) == keep(model.split())
     return h == model.split()
 
@@ -288,6 +289,10 @@ LAW_NAMES = ["nfd_nfc (NFD(NFC y) = NFD y)", "nfc_nfd (NFC(NFD y) = NFC y)", "fo
 def oracle(req, impl):
     t = req.split()
     h = head(impl).split()
+    if t[1] == "buf":
+        return oracle_buf(t, impl)
+    if t[1] == "icu":
+        return oracle_icu(t, impl)
     if not h or h[0] != "nm":
         return None
     g, extra = graph(impl)
@@ -359,10 +364,6 @@ def oracle(req, impl):
                 return "%s %s: got %s, matching by %s gives %s" % ("table" if is_tbl else "packet", op, got,
                                                                   "NFC (case significant)" if is_tbl else "cif_normalize", want)
         return None
-    if t[1] == "buf":
-        return oracle_buf(t, impl)
-    if t[1] == "icu":
-        return oracle_icu(t, impl)
     return None
 
 
